@@ -236,6 +236,9 @@ def run(analysis: Analysis, tier: str) -> RuleResult:
                 res.add("C10-R2", "ota:OTAFirmware.make_update / restart: the node is removed from unstarted and started before it is scheduled", ok, "mysensors/ota.py", f"popped before scheduling: {sorted(before)}", r["witness"] if not ok else None, context=summ["ctx"])
                 okb = any(t for _i, t in r["reboots"])
                 res.add("C10-R3", "ota:OTAFirmware.make_update / scheduling sets the reboot flag", okb, "mysensors/ota.py", "sensors[node].reboot = True", r["witness"] if not okb else None, context=summ["ctx"])
+    from .c09 import strict_hex
+
+    strict_hex(analysis, res, "C10-R4")
     # the update call itself: a firmware file that does not load to a non-empty image schedules nothing
     for summ in common.pmap(analysis, update_fw_worker, [(last, "serial", "sync"), (last, "serial", "async")]):
         q = summ["qual"]
@@ -256,6 +259,12 @@ def run(analysis: Analysis, tier: str) -> RuleResult:
                     if isinstance(t, ast.Subscript) and isinstance(t.value, ast.Attribute) and t.value.attr == "requested":
                         fn = common.func_of_node(analysis, mod, node)
                         res.add("C10-R1", f"{fn} / store into `requested`", common.owned_by(analysis, fn, {"ota:OTAFirmware.make_update"}), common.where(analysis, mod, node), "only the update call schedules nodes")
+    # firmware responses reach the node also when it sleeps (shared with C07-R2)
+    from . import c07
+
+    for summ in common.pmap(analysis, c07.router_worker, [(analysis.versions[-1], "serial", "sync")]):
+        bad = [r for r in summ["stream_rows"] if not r["ok"]]
+        res.add("C10-R7", "__init__:Gateway._route_message / firmware (stream) responses are never withheld or dropped by the router", bool(summ["stream_rows"]) and not bad, "mysensors/__init__.py", f"{len(summ['stream_rows'])} path(s) return the message" if not bad else "a firmware response for a sleeping node is withheld or dropped by the router", bad[0]["witness"] if bad else None)
     reboot_writers(analysis, res)
     # R5 from handler paths
     specs = [(v, "serial", "sync") for v in analysis.versions]
